@@ -46,17 +46,18 @@ def known_block() -> str:
 def seeded_block() -> str:
     m = json.loads((V / "seeded" / "MATRIX.json").read_text())
     unin = {}
-    for name in ("MATRIX-wave2-uninformed.json", "MATRIX-wave3-uninformed.json"):
+    for name in ("MATRIX-wave2-uninformed.json", "MATRIX-wave3-uninformed.json", "MATRIX-wave4-uninformed.json"):
         p = V / "seeded" / name
         if p.exists():
-            unin.update({k: v for k, v in json.loads(p.read_text()).items() if k not in unin or "-c-" in k})
+            tag = {"wave2": "-b-", "wave3": "-c-", "wave4": "-d-"}[name.split("-")[1]]
+            unin.update({k: v for k, v in json.loads(p.read_text()).items() if tag in k})
     out = ["| seed | property | what was changed | caught by own check (rules) | other checks | when first run (uninformed) |", "|---|---|---|---|---|---|"]
     for sid, r in sorted(m.items()):
         meta = json.loads((V / "seeded" / sid / "meta.json").read_text())
         own = r["caught_by"].get(r["property"], []) if r.get("applies") else []
         others = sorted(set(r.get("caught_by", {})) - {r["property"]})
         first = ""
-        if sid in unin and ("-b-" in sid or "-c-" in sid):
+        if sid in unin:
             u = unin[sid]
             first = "caught" if u["property"] in u.get("caught_by", {}) else ("other check" if u.get("caught_by") else ("exit 2" if u.get("analysis_errors") else "missed"))
         if meta.get("obsolete"):
